@@ -145,7 +145,14 @@ def run_job(target, case, opts=None):
             # an element-wise closure (comprehension over a symbolic sequence) evaluated lazily by a postcondition raised:
             # some element of the sequence makes the real code raise on this path -- not decided here, the raising path
             # itself is explored separately (branch on the same condition inside the function)
-            out["undecided"].append(f"postcondition evaluation met a raising element ({e.exc.name if hasattr(e, 'exc') else e}) [path {ctx.path_id()}]")
+            if getattr(e, "array_div", False) and outcome is not None and outcome[0] == "return":
+                # the raising "element" is a zero divisor inside a numpy array expression of the RESULT: numpy returns inf / nan
+                # there (no exception), which no clause of a contract over finite values allows -- an obligation that only an
+                # infeasible path can discharge; its model is the input with the zero divisor
+                ctx.prove("post:result-element-divides-by-zero(inf/nan)", "post", False,
+                          info={"path": ctx.path_id(), "where": getattr(e, "where", "")}, assume_after=False)
+            else:
+                out["undecided"].append(f"postcondition evaluation met a raising element ({e.exc.name if hasattr(e, 'exc') else e}) [path {ctx.path_id()}]")
         except spec.SpecNameError as e:
             # the contract names a local variable / parameter the function does not have (any more): the contract has to be
             # brought up to date with the code -- undecided, not a violation
